@@ -136,7 +136,7 @@ def isXmlIdName (env : Env) (name : Nat) : Bool :=
 def ncNameNE (s : Str) : Bool := ncNameOK s && !s.isEmpty
 
 /-- ASCII lower-casing (for the reserved PI target `xml` in any letter case). -/
-def asciiLower (c : Char) : Char := if 65 ≤ c.toNat && c.toNat ≤ 90 then Char.ofNat (c.toNat + 32) else c
+def asciiLowerChar (c : Char) : Char := if 65 ≤ c.toNat && c.toNat ≤ 90 then Char.ofNat (c.toNat + 32) else c
 
 /-- The interning tables hold the built-in values of `Xot::new` at their ids and no value twice. -/
 def envOK (env : Env) : Bool :=
@@ -153,7 +153,7 @@ def valueOK (env : Env) : Value → Bool
   | .comment s => s.all isXmlChar && !hasInfix ['-', '-'] s && s.getLast? != some '-'
   | .pi target data =>
     env.nsOfName target == Env.noNamespace && ncNameNE (env.localName target) &&
-    (env.localName target).map asciiLower != ['x', 'm', 'l'] &&
+    (env.localName target).map asciiLowerChar != ['x', 'm', 'l'] &&
     (match data with
      | none => true
      | some d => !d.isEmpty && !(d.head?.any isXmlSpace) && d.all isXmlChar && !hasInfix ['?', '>'] d)
